@@ -7,7 +7,7 @@ META = {
     "technique": "Independent Lean reference codec for message sets v0/v1 and record batches v2 (Spec/RecordBatch: strict decoder + encoder, bitwise CRC-32/CRC-32C) with kernel-checked decode∘encode round-trip theorems; Lean models of kafka-go's writers (protocol writeToVersion2/1, Conn writeRecordBatch/writeRecord/writeMessage) proved to emit Spec-decodable bytes carrying the given records; reference-counted page LTS with a safety invariant over all op sequences; byte-level correspondence in both directions through a compiled Lean oracle (library-produced bytes decoded by the Spec; Spec-encoded layouts decoded by Client.Fetch, RecordSet.ReadFrom and Conn.ReadBatch).",
     "level_claimed": {
         "category": "proof",
-        "text": "Kernel-checked: varint/zig-zag/fixed-width round trips and sizes; Spec decode(encode x) = x for records, v2 frames, v0/v1 messages and whole record sets (any mix, any number of entries); the writer models produce exactly the Spec encoding of the given records (offset deltas 0..n-1, timestamp deltas ms(t)-ms(first), null ≠ empty, headers, order, computed sizes = actual lengths) incl. the Conn path's timestamp-delta formula (D6 counterexample for the old formula); page pool/refcount invariant for all op sequences. Tied to the code by byte-exact writer-model correspondence and by the two-direction byte correspondence over formats × codecs × splits × shapes. The Client.Fetch-path DECODER is modelled (Model/RecordReader: readFromVersion2/1, RecordSet.ReadFrom, RecordStream) and proved to return the reference decoder's records on every valid response of v2 batches + plain v0/v1 messages (decoders_agree_client), to hide control batches (control_hidden) and to surface nothing of a batch with a wrong CRC (bad_crc_yields_no_records); the model is also run by the oracle on every fetch case (incl. v1 wrappers) and compared with the real decoder. Header sizes, patch offsets, attribute masks, magic offset are regenerated from the Go sources (go/extract records → Gen/RecordConsts) and proved equal to the Spec layout (gen_consts_match_spec). Round 4: v1 wrappers on the Client path proved (v1_wrapper_offsets); the Conn/Batch reader: field-by-field byte-level model (Model/ConnReader) proved to return the reference decoder's content up to null≈empty (decoders_agree_content) and run by the oracle on every fetch/conn case; the C02 builder's token-level reader model composed on bytes (decoders_agree_bytes via Spec/ByteTokens); compressed writer paths proved with an abstract compressor and tied byte-exactly modulo the compressor; field order/width of all writers/readers regenerated (gen_field_order); page hooks + trace acceptance through Model/Pages. Later: the Spec defines the timestamp type (LogAppendTime, attributes bit 3; finding C05-D30 fixed in /repo 795ac84) and all four decoder models read the tested masks from go/ast extraction (gen_timestamp_type); after fixes 4db07b4 / 314fa1c the Conn path is EXACT (null vs empty) and passes over control batches, so decoders_agree_content is an unconditional equality Conn = Client.Fetch on every valid complete response; decoders_agree_items composes with the C02 builder's byte-level tokenizer (C02.BItem / C02.tokenize); writeToVersion2 (plain and compressed), writeToVersion1 (plain and compressed: render in place, scan, Truncate, wrapper) and RecordSet.WriteTo are modelled THROUGH the page buffer (Model/RecordWriterPaged: placeholders, WriteAt back-patches, CRC over scan) and proved equal to the flat writer models for every page size and prior buffer content (v2_write_paged_spec, v2_write_compressed_paged_spec, v1_write_paged_spec, recordset_write_paged_spec), tied on the real page buffer across the 64 KiB boundary (ops pwset2, pwset2c, pwset1; export hooks); pages with their bytes (Model/PageHeap): held_bytes_intact. PARTIAL: truncated responses and the offset bookkeeping of Batch are C02's; decompressors are parameters.",
+        "text": "Kernel-checked: varint/zig-zag/fixed-width round trips and sizes; Spec decode(encode x) = x for records, v2 frames, v0/v1 messages and whole record sets (any mix, any number of entries); the writer models produce exactly the Spec encoding of the given records (offset deltas 0..n-1, timestamp deltas ms(t)-ms(first), null ≠ empty, headers, order, computed sizes = actual lengths) incl. the Conn path's timestamp-delta formula (D6 counterexample for the old formula); page pool/refcount invariant for all op sequences. Tied to the code by byte-exact writer-model correspondence and by the two-direction byte correspondence over formats × codecs × splits × shapes. The Client.Fetch-path DECODER is modelled (Model/RecordReader: readFromVersion2/1, RecordSet.ReadFrom, RecordStream) and proved to return the reference decoder's records on every valid response of v2 batches + plain v0/v1 messages (decoders_agree_client), to hide control batches (control_hidden) and to surface nothing of a batch with a wrong CRC (bad_crc_yields_no_records); the model is also run by the oracle on every fetch case (incl. v1 wrappers) and compared with the real decoder. Header sizes, patch offsets, attribute masks, magic offset are regenerated from the Go sources (go/extract records → Gen/RecordConsts) and proved equal to the Spec layout (gen_consts_match_spec). Round 4: v1 wrappers on the Client path proved (v1_wrapper_offsets); the Conn/Batch reader: field-by-field byte-level model (Model/ConnReader) proved to return the reference decoder's content up to null≈empty (decoders_agree_content) and run by the oracle on every fetch/conn case; the C02 builder's token-level reader model composed on bytes (decoders_agree_bytes via Spec/ByteTokens); compressed writer paths proved with an abstract compressor and tied byte-exactly modulo the compressor; field order/width of all writers/readers regenerated (gen_field_order); page hooks + trace acceptance through Model/Pages. Later: the Spec defines the timestamp type (LogAppendTime, attributes bit 3; finding C05-D30 fixed in /repo 795ac84) and all four decoder models read the tested masks from go/ast extraction (gen_timestamp_type); after fixes 4db07b4 / 314fa1c the Conn path is EXACT (null vs empty) and passes over control batches, so decoders_agree_content is an unconditional equality Conn = Client.Fetch on every valid complete response; decoders_agree_items composes with the C02 builder's byte-level tokenizer (C02.BItem / C02.tokenize); writeToVersion2 (plain and compressed), writeToVersion1 (plain and compressed: render in place, scan, Truncate, wrapper) and RecordSet.WriteTo are modelled THROUGH the page buffer (Model/RecordWriterPaged: placeholders, WriteAt back-patches, CRC over scan) and proved equal to the flat writer models for every page size and prior buffer content (v2_write_paged_spec, v2_write_compressed_paged_spec, v1_write_paged_spec, recordset_write_paged_spec), tied on the real page buffer across the 64 KiB boundary (ops pwset2, pwset2c, pwset1; export hooks); pages with their bytes (Model/PageHeap): held_bytes_intact. Round 6: the sizing (protocol/size.go) and writing (protocol/encode.go) helpers' choice of varint flavour, the per-record length expression of writeToVersion2 and the Conn path's recordSize/var…Len are regenerated (go/extract sizefns -> Gen/SizeFns); the writer model computes lengths WITH the extracted callee names, so recordV2_eq / v2_write_spec depend on the source (gen_size_calls, gen_legacy_size_calls, v2_record_length_exact). PARTIAL: truncated responses and the offset bookkeeping of Batch are C02's; decompressors are parameters.",
         "design_ref": "DESIGN.md §7 C05",
     },
     "level_note": "Trusted: Lean kernel; propext/Classical.choice/Quot.sound; Spec/RecordBatch.lean is my transcription of the Kafka message-format documentation (no Kafka source in the sandbox); hash/crc32 and the compressors are not verified (CRC definitions validated against hash/crc32 on every run, codecs are property C16; compressed payloads are decompressed by the harness with the library codec and handed to the oracle); the page LTS is tied to protocol/buffer.go by hook traces (counts) and by an observational concurrent test (keys/values stay intact while other decodes recycle pages); the byte-level heap (Model/PageHeap) adds only the rule `only a live pageBuffer stores into its pages`, read off buffer.go by inspection; int32 wrap of sizes/counts not modelled (requests < 2 GiB); consecutive-empty-batch layouts belong to C02; compressed v0 wrappers are outside the property.",
@@ -23,13 +23,16 @@ def run(ctx):
         "codec: dec (enc x) = x (property C16); the harness decompresses with the library codec",
         "Conn read path: exact comparison (null vs empty told apart since /repo 4db07b4; control batches passed over since 314fa1c)",
         "writers never set the timestamp-type bit (hypothesis logAppend attrs = false of the writer theorems); brokers may: the fetch generator sets it",
-        "message format 1 with headers given: known finding C05-D32 (dropped without an error); otherwise headers are generated for format 2 only",
+        "message format 1 with headers given must be refused (op v1hdr; C05-D32 fixed in /repo a7712d5); otherwise headers are generated for format 2 only",
         "v0 wrappers (compressed magic 0) not generated (outside the property); empty retained v2 batches (count 0) are generated since C02-D4/D14 are fixed",
     ]
     broken = []
     ok, log = ctx.extract("records", ["lean/KafkaVerif/Gen/RecordConsts.lean"])
     if not ok:
         broken.append({"kind": "obligation", "name": "translator go/extract records", "detail": log[-1500:]})
+    ok, log = ctx.extract("sizefns", ["lean/KafkaVerif/Gen/SizeFns.lean"])
+    if not ok:
+        broken.append({"kind": "obligation", "name": "translator go/extract sizefns", "detail": log[-1500:]})
     ok, log = ctx.extract("recordlayout", ["lean/KafkaVerif/Gen/RecordLayout.lean"])
     if not ok:
         broken.append({"kind": "obligation", "name": "translator go/extract recordlayout", "detail": log[-1500:]})
